@@ -145,6 +145,70 @@ theorem stream_fuel_suffices (recs : List Rec) (tail : Bytes) :
     simp only [List.length_append, List.length_cons, frame1, le16_length] at ih ⊢
     omega
 
+/-! ### … and on the bytes of the file -/
+
+/-- **End to end for xls**, stated on the outcome of the container stage (which is what C13's round-trip theorem
+    provides for every valid layout): if the compound file opens, has no VBA project storage, and its `Workbook`
+    stream reads back as `frameAll pre ++ FILEPASS ++ tail`, then `Xls::new` returns `Password`. -/
+theorem xls_file_filepass_detected (arms : Arms) (file : Bytes) (c c' : Cfb.CfbSt) (rd rd' : Bytes)
+    (pre : List Rec) (payload tail : Bytes)
+    (hnew : Cfb.new file file.length = .ok (c, rd))
+    (hvba : Cfb.hasDirectory c vbaName = false)
+    (hget : Cfb.getStream c workbookName rd = .ok (frameAll pre ++ frame1 FILEPASS payload ++ tail, c', rd'))
+    (hpre : ∀ p ∈ pre, Plain p ∧ p.typ ≠ EOF ∧ arms p = none)
+    (hpay : payload.length < 65536) (htail : NoContHead tail) :
+    xlsOpen arms file = .password := by
+  unfold xlsOpen
+  simp only [hnew, hvba, Bool.false_eq_true, if_false, workbookStream, hget]
+  apply filepass_detected_stream arms pre payload tail _ hpre hpay htail
+  have := stream_fuel_suffices (pre ++ [⟨FILEPASS, payload, []⟩]) tail
+  have hfa : frameAll (pre ++ [(⟨FILEPASS, payload, []⟩ : Rec)]) = frameAll pre ++ frame1 FILEPASS payload := by
+    simp [frameAll]
+  rw [hfa] at this
+  simpa using this
+
+/-- the same over container layouts, relative to C13's round-trip (`CfbReadsLayouts`): a `Workbook` stream carrying a
+    FILEPASS record, next to any other streams (except a VBA project), in **any** valid layout -/
+theorem xls_file_filepass_detected_rel (hC13 : CfbReadsLayouts) (arms : Arms)
+    (streams : List Cfb.Stream) (L : Cfb.Layout) (pre : List Rec) (payload tail : Bytes)
+    (hv : Cfb.Valid streams L)
+    (hwb : (⟨workbookName, frameAll pre ++ frame1 FILEPASS payload ++ tail⟩ : Cfb.Stream) ∈ streams)
+    (hvba : ∀ s ∈ streams, s.name ≠ vbaName)
+    (hpre : ∀ p ∈ pre, Plain p ∧ p.typ ≠ EOF ∧ arms p = none)
+    (hpay : payload.length < 65536) (htail : NoContHead tail) :
+    xlsOpen arms (Cfb.layoutCfb streams L) = .password := by
+  obtain ⟨c, rd, hnew, hdir, hget⟩ := hC13 streams L hv
+  obtain ⟨c', rd', hg⟩ := hget _ hwb
+  have hnov : Cfb.hasDirectory c vbaName = false := by
+    cases h : Cfb.hasDirectory c vbaName with
+    | false => rfl
+    | true =>
+      rcases (hdir vbaName).1 h with h1 | ⟨s, hs, hn⟩
+      · exact absurd h1 (by decide)
+      · exact absurd hn (hvba s hs)
+  exact xls_file_filepass_detected arms _ c c' rd rd' pre payload tail hnew hnov hg hpre hpay htail
+
+/-- conversely: a compound file whose `Workbook` stream is a well-framed globals substream without FILEPASS before
+    its first EOF is never reported as password protected by `Xls::new` (nor is anything that fails earlier). -/
+theorem xls_file_no_false_positive (arms : Arms) (file : Bytes) (c c' : Cfb.CfbSt) (rd rd' : Bytes)
+    (recs : List Rec) (tail : Bytes)
+    (hnew : Cfb.new file file.length = .ok (c, rd))
+    (hget : Cfb.getStream c workbookName rd = .ok (frameAll recs ++ tail, c', rd'))
+    (harms : ∀ r, arms r ≠ some .password)
+    (hplain : ∀ r ∈ recs, Plain r) (htail : NoContHead tail)
+    (hend : (∃ r ∈ recs, r.typ = EOF) ∨ tail = [])
+    (hno : ∀ r ∈ beforeEof recs, r.typ ≠ FILEPASS) :
+    xlsOpen arms file ≠ .password := by
+  unfold xlsOpen
+  simp only [hnew, workbookStream, hget]
+  split
+  · intro h; cases h
+  · exact no_false_positive_xls_stream arms recs tail _ harms hplain htail hend (stream_fuel_suffices recs tail) hno
+
+theorem xls_not_a_compound_file (arms : Arms) (file : Bytes) (e : String)
+    (h : Cfb.new file file.length = .err e) : xlsOpen arms file = .err ("cfb:" ++ e) := by
+  unfold xlsOpen; rw [h]
+
 /-! ## ods -/
 
 /-- A `manifest:file-entry` start tag followed — after any events: attributes' worth of nothing, other children,
